@@ -47,7 +47,9 @@ DICT_INPUT = {"virtual_world": "vw", "programs": "prog"}
 # simulated period PERIODS[min(v // 4, len - 1)] = (first day as offset from 2021-01-01, number of days);
 # the repair cost is 200 + v.  cache.py builds the dictionaries from this, render() writes it as
 # `periodOf` into the generated table.
-PERIODS = [(0, 25), (2, 25), (0, 20)]
+# on purpose: same length shifted by two days; shorter; shifted by exactly one year; straddling New Year;
+# Feb 28 - Mar 1 of a leap year (2024); one day; two days Dec 31 - Jan 1
+PERIODS = [(0, 25), (2, 25), (0, 20), (365, 25), (353, 25), (1153, 3), (0, 1), (364, 2)]
 
 
 def period_of(v):
@@ -388,8 +390,99 @@ def extract_preseed():
     return out
 
 
+STATE_MODULES = ["initialization/initialize_infrastructure.py", "initialization/initialize_emissions.py",
+                 "initialization/preseed.py"]
+PICKLED_MODULES = ["virtual_world/infrastructure.py", "virtual_world/sites.py", "virtual_world/equipment_groups.py",
+                   "virtual_world/component.py", "virtual_world/sources.py"]
+_MUTABLE_CALLS = {"list", "dict", "set", "defaultdict", "OrderedDict", "deque", "Counter"}
+
+
+def _is_mutable_literal(v):
+    return isinstance(v, (ast.List, ast.Dict, ast.Set, ast.ListComp, ast.DictComp, ast.SetComp)) or (
+        isinstance(v, ast.Call) and ast.unparse(v.func).split(".")[-1] in _MUTABLE_CALLS)
+
+
+def extract_state():
+    """state that survives between runs in one interpreter, and pickling hooks of what is stored:
+      hiddenState       module-level mutable containers, memoising decorators and mutable default
+                        arguments in the three initialisation modules; class-level mutable containers
+                        of the pickled classes
+      pickleDropped     (class, attribute) assigned to self somewhere in a class with an explicit
+                        __reduce__/_reconstruct pair but not restored by _reconstruct
+      pickleMisordered  (class, attribute) whose position in the __reduce__ tuple is not the position
+                        of the _reconstruct parameter it is restored from"""
+    hidden, dropped, misordered = [], [], []
+    for rel in STATE_MODULES:
+        path = os.path.join(shim.REPO_SRC, rel)
+        tree = ast.parse(open(path).read())
+        base = os.path.basename(rel)
+        for n in tree.body:
+            if isinstance(n, (ast.Assign, ast.AnnAssign)) and n.value is not None and _is_mutable_literal(n.value):
+                hidden.append((f"{base}:{n.lineno} module-level {ast.unparse(n)[:40]}", n.lineno))
+        for n in ast.walk(tree):
+            if isinstance(n, (ast.FunctionDef, ast.AsyncFunctionDef)):
+                for d in n.decorator_list:
+                    if any(w in ast.unparse(d) for w in ("cache", "memo")):
+                        hidden.append((f"{base}:{n.lineno} {n.name} @{ast.unparse(d)[:30]}", n.lineno))
+                for dflt in list(n.args.defaults) + [x for x in n.args.kw_defaults if x is not None]:
+                    if _is_mutable_literal(dflt):
+                        hidden.append((f"{base}:{n.lineno} {n.name} mutable default", n.lineno))
+            if isinstance(n, ast.Global):
+                hidden.append((f"{base}:{n.lineno} global {','.join(n.names)}", n.lineno))
+    for rel in PICKLED_MODULES:
+        path = os.path.join(shim.REPO_SRC, rel)
+        tree = ast.parse(open(path).read())
+        base = os.path.basename(rel)
+        for cls in tree.body:
+            if not isinstance(cls, ast.ClassDef):
+                continue
+            for b in cls.body:
+                if isinstance(b, (ast.Assign, ast.AnnAssign)) and b.value is not None and _is_mutable_literal(b.value):
+                    hidden.append((f"{base}:{b.lineno} {cls.name} class-level {ast.unparse(b)[:40]}", b.lineno))
+            meths = {m.name: m for m in cls.body if isinstance(m, ast.FunctionDef)}
+            for hook in ("__deepcopy__", "__copy__", "__getstate__"):
+                if hook in meths:
+                    hidden.append((f"{base}:{meths[hook].lineno} {cls.name}.{hook}", meths[hook].lineno))
+            if "__reduce__" not in meths:
+                continue
+            if "_reconstruct" not in meths:
+                raise ExtractError(f"{path}:{cls.lineno}: {cls.name} has __reduce__ without _reconstruct")
+            assigned = {}
+            for fn in meths.values():
+                for n in ast.walk(fn):
+                    tg = n.targets if isinstance(n, ast.Assign) else (
+                        [n.target] if isinstance(n, (ast.AnnAssign, ast.AugAssign)) else [])
+                    for tt in tg:
+                        if isinstance(tt, ast.Attribute) and isinstance(tt.value, ast.Name) and tt.value.id == "self":
+                            assigned.setdefault(tt.attr, n.lineno)
+            rec = meths["_reconstruct"]
+            restored = {}
+            for n in ast.walk(rec):
+                if isinstance(n, ast.Assign) and isinstance(n.targets[0], ast.Attribute) \
+                        and isinstance(n.targets[0].value, ast.Name) and n.targets[0].value.id == "instance":
+                    restored[n.targets[0].attr] = ast.unparse(n.value)
+            params = [a.arg for a in rec.args.args][1:]
+            tup = None
+            for n in ast.walk(meths["__reduce__"]):
+                if isinstance(n, ast.Tuple) and n.elts and all(
+                        isinstance(e, ast.Attribute) and isinstance(e.value, ast.Name) and e.value.id == "self"
+                        for e in n.elts):
+                    tup = n
+                    break
+            if tup is None:
+                raise ExtractError(f"{path}:{meths['__reduce__'].lineno}: {cls.name}.__reduce__ argument tuple not found")
+            for a in sorted(set(assigned) - set(restored)):
+                dropped.append((cls.name, a, assigned[a]))
+            for i, e in enumerate(tup.elts):
+                got = [k for k, v in restored.items() if i < len(params) and v == params[i]]
+                if got != [e.attr]:
+                    misordered.append((cls.name, e.attr, e.lineno))
+    return {"hiddenState": hidden, "pickleDropped": dropped, "pickleMisordered": misordered}
+
+
 def extract():
     t = {}
+    t.update(extract_state())
     t.update(extract_infrastructure())
     e = extract_emissions()
     p = extract_preseed()
@@ -444,6 +537,16 @@ def render(t):
         "  periodOf := fun v => match v / 4 with"
         + "".join(f" | {i} => ({a}, {b})" for i, (a, b) in enumerate(PERIODS[:-1]))
         + f" | _ => ({PERIODS[-1][0]}, {PERIODS[-1][1]})",
+        "",
+        "/-- state surviving between runs in one interpreter (module / class level containers, memoising",
+        "decorators, mutable defaults, copy hooks) in the initialisation modules and the pickled classes -/",
+        "def hiddenState : List String := [" + ", ".join(f'"{x}"' for x, _ in t["hiddenState"]) + "]",
+        "/-- (class, attribute) assigned on self but not restored by the class's _reconstruct -/",
+        "def pickleDropped : List (String × String) := ["
+        + ", ".join(f'("{c}", "{a}")' for c, a, _ in t["pickleDropped"]) + "]",
+        "/-- (class, attribute) restored from a different position than it has in the __reduce__ tuple -/",
+        "def pickleMisordered : List (String × String) := ["
+        + ", ".join(f'("{c}", "{a}")' for c, a, _ in t["pickleMisordered"]) + "]",
         "",
         "end LdarModel.Generated.Cache",
         "",
